@@ -155,7 +155,21 @@ func directedPool() []core.Value {
 		S("a"), S("a,b"), I(1), I(0), I(-1), values.NewFloat(1.5), values.True, values.None,
 		Arr(), Obj(), values.False, I(50), S("day"), S("yyyy"), Date(1700000000, 5, -1), Date(86400, 0, 60),
 		values.NewBinary([]byte{1, 2}), Arr(I(2), I(4), values.NewFloat(0.5)),
+		// objects with the same keys that differ in several members in opposite directions
+		// (their order must not depend on how Go happens to range over a map), and an
+		// object with more members than any small-object fast path would handle
+		Arr(Obj("a", I(1), "b", I(2), "c", I(3)), Obj("a", I(2), "b", I(1), "c", I(3)), Obj("a", I(3), "b", I(2), "c", I(1)),
+			Obj("a", I(1), "b", I(3), "c", I(2)), Obj("a", I(2), "b", I(3), "c", I(1)), Obj("a", I(3), "b", I(1), "c", I(2)), Obj("a", I(1), "b", I(2), "c", I(3))),
+		bigObject(24),
 	}
+}
+
+func bigObject(n int) core.Value {
+	o := values.NewObject()
+	for i := 0; i < n; i++ {
+		o.Set(values.NewString(fmt.Sprintf("k%02d", (i*7)%n)), values.NewInt(i))
+	}
+	return o
 }
 
 type tuple []core.Value
